@@ -5,11 +5,11 @@
   Families: Uniform, Exp, Cauchy, Laplace, Gumbel, Pareto, Triangular, Weibull; DiscreteUniform,
   Geometric (pmf).
   (Dirac has `mode()` but no pdf in the crate, so there is nothing to state.)
-  Findings (counterexamples): Weibull with shape < 1 (`mode()` returns a point that is not a
-  maximiser).
-  (Two earlier findings were fixed in the source and are now positive theorems: Triangular with
+  (Three earlier findings were fixed in the source and are now positive theorems: Triangular with
   `mode = min`/`mode = max` — `pdf` tests `x == mode` first and returns `2/(max-min)`; Geometric pmf
-  beyond `i32::MAX` — the exponent is `(x-1) as f64`, no `as i32` cast.)
+  beyond `i32::MAX` — the exponent is `(x-1) as f64`, no `as i32` cast; Weibull with shape < 1 —
+  `mode()` is now `0` (guard `shape < 1 || ulps_eq!(shape, 1)`), and the pdf is non-increasing on
+  `(0, ∞)`: `weibull_mode_shape_le_one`, `weibull_pdf_antitone_of_shape_le_one`.)
 -/
 import Statrs.Real.Simp
 import Statrs.Lemmas.Quantile
@@ -214,7 +214,8 @@ theorem weibull_mode_shape_gt_one (d : Weibull ℝ) (hk : 1 < d.f_shape) (hs : 0
   have hm : unwrapO (Weibull.mode d) = d.f_scale * ((d.f_shape - 1) / d.f_shape) ^ (1 / d.f_shape) := by
     unfold Weibull.mode unwrapO
     rfun_norm
-    have : ¬ (decide (d.f_shape = (1.0:ℝ)) = true) := by norm_num; exact hk.ne'
+    have : ¬ (d.f_shape < (1.0:ℝ) ∨ decide (d.f_shape = (1.0:ℝ)) = true) := by
+      norm_num; exact ⟨hk.le, hk.ne'⟩
     simp only [if_neg this]
     norm_num
   have hmpos : 0 < d.f_scale * ((d.f_shape - 1) / d.f_shape) ^ (1 / d.f_shape) :=
@@ -244,8 +245,11 @@ theorem weibull_mode_shape_gt_one (d : Weibull ℝ) (hk : 1 < d.f_shape) (hs : 0
     apply mul_le_mul_of_nonneg_left _ (by positivity)
     exact rpow_mul_exp_neg_le _ _ ha (Real.rpow_pos_of_pos (div_pos hx hs) _)
 
-/-- Weibull, `1 ≤ shape` (the constructor accepts every `shape > 0`; see the counterexample below
-    for `shape < 1`): the pdf is maximal at `mode()` -/
+/-- Weibull, `1 ≤ shape`: the pdf is maximal at `mode()`.  (The constructor accepts every
+    `shape > 0`; for `shape < 1` the density has a pole at 0, so NO point maximises it — see
+    `weibull_mode_shape_le_one`, `weibull_pdf_antitone_of_shape_le_one` and
+    `weibull_pdf_strictAnti_of_shape_lt_one` below for what holds there.  `_partial` is kept as the
+    historical name; the hypothesis `1 ≤ shape` is necessary.) -/
 theorem weibull_mode_partial (d : Weibull ℝ) (hk : 1 ≤ d.f_shape) (hs : 0 < d.f_scale)
     (hi : d.f_scale_pow_shape_inv = d.f_scale ^ (-d.f_shape)) (x : ℝ) :
     Weibull.pdf d x ≤ Weibull.pdf d (unwrapO (Weibull.mode d)) := by
@@ -256,25 +260,80 @@ theorem weibull_mode_partial (d : Weibull ℝ) (hk : 1 ≤ d.f_shape) (hs : 0 < 
 example : ∃ d : Weibull ℝ, 1 ≤ d.f_shape ∧ 0 < d.f_scale ∧ d.f_scale_pow_shape_inv = d.f_scale ^ (-d.f_shape) :=
   ⟨⟨2, 1, 1⟩, by norm_num⟩
 
-/-- FINDING: `Weibull::new(0.5, 1.0)` is accepted; `mode()` evaluates `((k-1)/k)^(1/k) = (-1)^2 = 1`
-    (same value in IEEE: `powf(-1.0, 2.0) = 1.0`), but `pdf 1 = e⁻¹/2 < pdf 0.25 = e^(-1/2)`: for
-    shape < 1 the density is unbounded near 0 and `mode()` returns a point that is not a maximiser. -/
-theorem weibull_mode_counterexample :
-    ∃ d : Weibull ℝ, 0 < d.f_shape ∧ 0 < d.f_scale ∧ d.f_scale_pow_shape_inv = d.f_scale ^ (-d.f_shape) ∧
-      unwrapO (Weibull.mode d) = 1 ∧
-      ∃ x, Weibull.pdf d (unwrapO (Weibull.mode d)) < Weibull.pdf d x := by
-  have hm : unwrapO (Weibull.mode (⟨1 / 2, 1, 1⟩ : Weibull ℝ)) = 1 := by
-    unfold Weibull.mode unwrapO
-    rfun_norm
-    norm_num
-  refine ⟨⟨1 / 2, 1, 1⟩, by norm_num, by norm_num, by norm_num, hm, 1 / 4, ?_⟩
-  rw [hm]
-  unfold Weibull.pdf
+/-- Weibull with `shape ≤ 1` (after the source fix: guard `shape < 1.0 || ulps_eq!(shape, 1.0)`):
+    `mode()` is `0`.  Before the fix only `shape = 1` took this branch; `Weibull::new(0.5, 1.0).mode()`
+    evaluated `((k-1)/k)^(1/k)` on a negative base (`1` over ℝ, NaN for fractional powers in IEEE). -/
+theorem weibull_mode_shape_le_one (d : Weibull ℝ) (hk : d.f_shape ≤ 1) :
+    Weibull.mode d = some 0 := by
+  unfold Weibull.mode
   rfun_norm
+  have hg : d.f_shape < (1.0:ℝ) ∨ decide (d.f_shape = (1.0:ℝ)) = true := by
+    norm_num; exact lt_or_eq_of_le hk
+  simp only [if_pos hg]
   norm_num
-  have h1 : Real.exp (-1) < Real.exp (-(1 / 2)) := Real.exp_lt_exp.mpr (by norm_num)
-  have h2 := Real.exp_pos (-1)
-  linarith
+
+/-- Weibull with `0 < shape ≤ 1`: the pdf is non-increasing on `(0, ∞)`, i.e. no `y > 0` has larger
+    density than any point nearer to `mode() = 0`.  (For `shape < 1` the density has a pole at 0, so
+    "maximal at the mode" is stated in this form; for `shape = 1` see also `weibull_mode_shape_one`.) -/
+theorem weibull_pdf_antitone_of_shape_le_one (d : Weibull ℝ) (hk0 : 0 < d.f_shape)
+    (hk : d.f_shape ≤ 1) (hs : 0 < d.f_scale)
+    (hi : d.f_scale_pow_shape_inv = d.f_scale ^ (-d.f_shape)) (x y : ℝ) (hx : 0 < x) (hxy : x ≤ y) :
+    Weibull.pdf d y ≤ Weibull.pdf d x := by
+  have hy : 0 < y := lt_of_lt_of_le hx hxy
+  rw [weibull_pdf_pos_eq d hk0 hs hi x hx, weibull_pdf_pos_eq d hk0 hs hi y hy]
+  have hux : 0 < (x / d.f_scale) ^ d.f_shape := Real.rpow_pos_of_pos (div_pos hx hs) _
+  have huxy : (x / d.f_scale) ^ d.f_shape ≤ (y / d.f_scale) ^ d.f_shape :=
+    Real.rpow_le_rpow (div_pos hx hs).le (div_le_div_of_nonneg_right hxy hs.le) hk0.le
+  have he : (d.f_shape - 1) / d.f_shape ≤ 0 :=
+    div_nonpos_of_nonpos_of_nonneg (by linarith) hk0.le
+  have h1 : ((y / d.f_scale) ^ d.f_shape) ^ ((d.f_shape - 1) / d.f_shape)
+      ≤ ((x / d.f_scale) ^ d.f_shape) ^ ((d.f_shape - 1) / d.f_shape) :=
+    Real.rpow_le_rpow_of_nonpos hux huxy he
+  have h2 : Real.exp (-((y / d.f_scale) ^ d.f_shape)) ≤ Real.exp (-((x / d.f_scale) ^ d.f_shape)) :=
+    Real.exp_le_exp.mpr (by linarith)
+  apply mul_le_mul_of_nonneg_left _ (by positivity)
+  exact mul_le_mul h1 h2 (Real.exp_pos _).le (Real.rpow_nonneg hux.le _)
+
+/-- Weibull with `shape < 1`: the pdf is STRICTLY decreasing on `(0, ∞)` — every `y > 0` is beaten by
+    every point nearer to `mode() = 0`, so `0` is the only candidate for a mode. -/
+theorem weibull_pdf_strictAnti_of_shape_lt_one (d : Weibull ℝ) (hk0 : 0 < d.f_shape)
+    (hk : d.f_shape < 1) (hs : 0 < d.f_scale)
+    (hi : d.f_scale_pow_shape_inv = d.f_scale ^ (-d.f_shape)) (x y : ℝ) (hx : 0 < x) (hxy : x < y) :
+    Weibull.pdf d y < Weibull.pdf d x := by
+  have hy : 0 < y := hx.trans hxy
+  rw [weibull_pdf_pos_eq d hk0 hs hi x hx, weibull_pdf_pos_eq d hk0 hs hi y hy]
+  have hux : 0 < (x / d.f_scale) ^ d.f_shape := Real.rpow_pos_of_pos (div_pos hx hs) _
+  have huxy : (x / d.f_scale) ^ d.f_shape < (y / d.f_scale) ^ d.f_shape :=
+    Real.rpow_lt_rpow (div_pos hx hs).le (div_lt_div_of_pos_right hxy hs) hk0
+  have he : (d.f_shape - 1) / d.f_shape ≤ 0 :=
+    div_nonpos_of_nonpos_of_nonneg (by linarith) hk0.le
+  have h1 : ((y / d.f_scale) ^ d.f_shape) ^ ((d.f_shape - 1) / d.f_shape)
+      ≤ ((x / d.f_scale) ^ d.f_shape) ^ ((d.f_shape - 1) / d.f_shape) :=
+    Real.rpow_le_rpow_of_nonpos hux huxy.le he
+  have h2 : Real.exp (-((y / d.f_scale) ^ d.f_shape)) < Real.exp (-((x / d.f_scale) ^ d.f_shape)) :=
+    Real.exp_lt_exp.mpr (by linarith)
+  apply mul_lt_mul_of_pos_left _ (by positivity)
+  exact mul_lt_mul' h1 h2 (Real.exp_pos _).le (Real.rpow_pos_of_pos hux _)
+
+example : ∃ d : Weibull ℝ, 0 < d.f_shape ∧ d.f_shape < 1 ∧ 0 < d.f_scale ∧
+    d.f_scale_pow_shape_inv = d.f_scale ^ (-d.f_shape) :=
+  ⟨⟨1 / 2, 1, 1⟩, by norm_num⟩
+
+/-- The formerly defective case `Weibull::new(0.5, 1.0)`: `mode()` is now `0` (it was `1`, and
+    `pdf 1 = e⁻¹/2 < pdf 0.25 = e^(-1/2)` showed that `1` is not a maximiser); the density decreases
+    on `(0, ∞)`, in particular `pdf 1 < pdf 0.25` still holds. -/
+theorem weibull_mode_shape_half_instance :
+    Weibull.mode (⟨1 / 2, 1, 1⟩ : Weibull ℝ) = some 0 ∧
+    unwrapO (Weibull.mode (⟨1 / 2, 1, 1⟩ : Weibull ℝ)) = 0 ∧
+    (∀ x y, 0 < x → x ≤ y →
+      Weibull.pdf (⟨1 / 2, 1, 1⟩ : Weibull ℝ) y ≤ Weibull.pdf (⟨1 / 2, 1, 1⟩ : Weibull ℝ) x) ∧
+    Weibull.pdf (⟨1 / 2, 1, 1⟩ : Weibull ℝ) 1 < Weibull.pdf (⟨1 / 2, 1, 1⟩ : Weibull ℝ) (1 / 4) := by
+  have hm := weibull_mode_shape_le_one (⟨1 / 2, 1, 1⟩ : Weibull ℝ) (by norm_num)
+  refine ⟨hm, by rw [hm]; rfl, fun x y hx hxy => ?_, ?_⟩
+  · exact weibull_pdf_antitone_of_shape_le_one _ (by norm_num) (by norm_num) (by norm_num)
+      (by norm_num) x y hx hxy
+  · exact weibull_pdf_strictAnti_of_shape_lt_one _ (by norm_num) (by norm_num) (by norm_num)
+      (by norm_num) (1 / 4) 1 (by norm_num) (by norm_num)
 
 /-! ## discrete families: DiscreteUniform, Geometric
 (Bernoulli's pmf goes through the abstract `SF.ln_binomial`; not covered here.) -/
